@@ -31,3 +31,14 @@ Definition sp_dummies (v : list (option key)) (levels : list key) (drop_first : 
   let lv := if drop_first then tl levels else levels in
   let codes := map (fun o => match o with Some x => code_of lv x 0 | None => None end) v in
   (lv, map (fun k => sp_dummy codes k 0) (seq 0 (length lv))).
+
+(* _get_columns_for_term with output='sparse': the row-wise Kronecker product of the factors' columns, the first factor varying fastest,
+   names joined by ':', every product column multiplied by the term's scale *)
+Fixpoint sp_kron (fs : list (list (key * spcol))) : list (key * spcol) :=
+  match fs with
+  | [] => []
+  | [f] => f
+  | f :: rest => flat_map (fun rc => map (fun fc => (fst fc ++ [58%N] ++ fst rc, sp_mul (snd fc) (snd rc))) f) (sp_kron rest)
+  end.
+Definition sp_term_cols (scale : Qc) (fs : list (list (key * spcol))) : list (key * spcol) :=
+  map (fun nc => (fst nc, sp_scale scale (snd nc))) (sp_kron fs).
